@@ -81,8 +81,8 @@ def fp_cif_CIFCategoryU_initU : Fp := { params := [("columns", "None"), ("name",
 def fp_cif_CIFCategoryU_iterU : Fp := { params := [], strs := [], ints := [], cmps := [], bools := [], raises := [], calls := ["iter"] }
 def fp_cif_CIFCategoryU_lenU : Fp := { params := [], strs := [], ints := [], cmps := [], bools := [], raises := [], calls := ["len"] }
 def fp_cif_CIFCategoryU_setitemU : Fp := { params := [("key", "<required>"), ("column", "<required>")], strs := [], ints := [], cmps := [], bools := ["Not"], raises := [], calls := ["isinstance", "CIFColumn"] }
-def fp_cif_CIFCategoryUdeserialize_looped : Fp := { params := [("lines", "<required>")], strs := ["_", "."], ints := [0, 0, 1, 1, 0], cmps := ["Eq", "NotEq"], bools := [], raises := ["DeserializationError"], calls := ["split", "append", "cycle", "range", "len", "_split_one_line", "next", "append", "next"] }
-def fp_cif_CIFCategoryUdeserialize_single : Fp := { params := [("lines", "<required>")], strs := ["."], ints := [0, 2, 1, 1, 0, 1, 1, 0, 2, 0, 1], cmps := ["Lt", "Eq", "Eq", "Eq", "Eq"], bools := [], raises := ["DeserializationError", "DeserializationError", "DeserializationError"], calls := ["len", "list", "_split_one_line", "len", "len", "list", "_split_one_line", "len", "len", "split", "CIFColumn"] }
+def fp_cif_CIFCategoryUdeserialize_looped : Fp := { params := [("p0", "<required>")], strs := ["_", "."], ints := [0, 0, 1, 1, 0], cmps := ["Eq", "NotEq"], bools := [], raises := ["DeserializationError"], calls := ["split", "append", "cycle", "range", "len", "_split_one_line", "next", "append", "next"] }
+def fp_cif_CIFCategoryUdeserialize_single : Fp := { params := [("p0", "<required>")], strs := ["."], ints := [0, 2, 1, 1, 0, 1, 1, 0, 2, 0, 1], cmps := ["Lt", "Eq", "Eq", "Eq", "Eq"], bools := [], raises := ["DeserializationError", "DeserializationError", "DeserializationError"], calls := ["len", "list", "_split_one_line", "len", "len", "list", "_split_one_line", "len", "len", "split", "CIFColumn"] }
 def fp_cif_CIFCategoryUserialize_looped : Fp := { params := [], strs := ["_", ".", " ", "", "loop_"], ints := [1], cmps := [], bools := [], raises := [], calls := ["keys", "values", "as_array", "array", "_escape", "append", "range", "enumerate", "ljust", "strip"] }
 def fp_cif_CIFCategoryUserialize_single : Fp := { params := [], strs := ["_", "."], ints := [3], cmps := [], bools := [], raises := [], calls := ["keys", "max", "len", "strip", "ljust", "_escape", "as_item", "zip", "values"] }
 def fp_cif_CIFCategory_deserialize : Fp := { params := [("text", "<required>")], strs := [], ints := [0, 0, 0], cmps := ["Is"], bools := ["Not"], raises := ["DeserializationError"], calls := ["strip", "splitlines", "_is_empty", "_is_loop_start", "pop", "_parse_category_name", "_to_single", "_deserialize_looped", "_deserialize_single", "CIFCategory"] }
@@ -110,16 +110,16 @@ def fp_cif_CIFFile_read : Fp := { params := [("file", "<required>")], strs := ["
 def fp_cif_CIFFile_serialize : Fp := { params := [], strs := ["", ""], ints := [], cmps := [], bools := [], raises := ["SerializationError"], calls := ["items", "isinstance", "append", "append", "serialize", "append", "join"] }
 def fp_cif_CIFFile_write : Fp := { params := [("file", "<required>")], strs := ["w"], ints := [], cmps := [], bools := ["Not"], raises := ["TypeError"], calls := ["is_open_compatible", "open", "write", "serialize", "is_text", "write", "serialize"] }
 def fp_cif_UNICODE_CHAR_SIZE : Fp := { params := [], strs := [], ints := [4], cmps := [], bools := [], raises := [], calls := [] }
-def fp_cifUarrayfy : Fp := { params := [("data", "<required>")], strs := [], ints := [0], cmps := ["Eq"], bools := ["Or", "Not"], raises := ["ValueError"], calls := ["isinstance", "isinstance", "len", "asarray"] }
-def fp_cifUcreate_element_dict : Fp := { params := [("lines", "<required>"), ("element_names", "<required>"), ("element_starts", "<required>")], strs := ["\n", "\n"], ints := [1], cmps := [], bools := [], raises := [], calls := ["append", "len", "join", "enumerate"] }
-def fp_cifUescape : Fp := { params := [("value", "<required>")], strs := ["\n", "'", "\"", "''", "'", "\"", "\"", "\"", "'", "'", "_", "'", "'", " ", "'", "'", "\t", "'", "'", "'", "'", "#", ";", "data_", "loop_", "'", "'"], ints := [0, 0, 0], cmps := ["In", "In", "In", "Eq", "In", "In", "Eq", "In", "In", "In"], bools := ["And", "Or"], raises := [], calls := ["_multiline", "_multiline", "len", "any", "isspace", "startswith"] }
-def fp_cifUis_empty : Fp := { params := [("line", "<required>")], strs := ["#"], ints := [0, 0], cmps := ["Eq", "Eq"], bools := ["Or"], raises := [], calls := ["len", "strip"] }
-def fp_cifUis_loop_start : Fp := { params := [("line", "<required>")], strs := ["loop_"], ints := [], cmps := [], bools := [], raises := [], calls := ["startswith"] }
-def fp_cifUmultiline : Fp := { params := [("value", "<required>")], strs := ["\n;", "\n;\n"], ints := [], cmps := [], bools := [], raises := [], calls := [] }
-def fp_cifUparse_category_name : Fp := { params := [("line", "<required>")], strs := ["_", "."], ints := [0, 1], cmps := ["NotEq"], bools := [], raises := [], calls := ["find"] }
-def fp_cifUparse_data_block_name : Fp := { params := [("line", "<required>")], strs := ["data_"], ints := [5], cmps := [], bools := [], raises := [], calls := ["startswith"] }
-def fp_cifUsplit_one_line : Fp := { params := [("line", "<required>")], strs := [";", "'", "\"", " ", "'", "\""], ints := [0, 1, 0, 1, 1, 1, 1], cmps := ["Eq", "In", "In", "Gt"], bools := ["Or", "And"], raises := [], calls := ["lstrip", "partition", "startswith", "endswith", "len", "partition", "split"] }
-def fp_cifUto_single : Fp := { params := [("lines", "<required>")], strs := [";", "\n"], ints := [0], cmps := ["Eq"], bools := ["Not"], raises := [], calls := ["append", "append", "join", "append", "append"] }
+def fp_cifUarrayfy : Fp := { params := [("p0", "<required>")], strs := [], ints := [0], cmps := ["Eq"], bools := ["Or", "Not"], raises := ["ValueError"], calls := ["isinstance", "isinstance", "len", "asarray"] }
+def fp_cifUcreate_element_dict : Fp := { params := [("p0", "<required>"), ("p1", "<required>"), ("p2", "<required>")], strs := ["\n", "\n"], ints := [1], cmps := [], bools := [], raises := [], calls := ["append", "len", "join", "enumerate"] }
+def fp_cifUescape : Fp := { params := [("p0", "<required>")], strs := ["\n", "'", "\"", "''", "'", "\"", "\"", "\"", "'", "'", "_", "'", "'", " ", "'", "'", "\t", "'", "'", "'", "'", "#", ";", "data_", "loop_", "'", "'"], ints := [0, 0, 0], cmps := ["In", "In", "In", "Eq", "In", "In", "Eq", "In", "In", "In"], bools := ["And", "Or"], raises := [], calls := ["_multiline", "_multiline", "len", "any", "isspace", "startswith"] }
+def fp_cifUis_empty : Fp := { params := [("p0", "<required>")], strs := ["#"], ints := [0, 0], cmps := ["Eq", "Eq"], bools := ["Or"], raises := [], calls := ["len", "strip"] }
+def fp_cifUis_loop_start : Fp := { params := [("p0", "<required>")], strs := ["loop_"], ints := [], cmps := [], bools := [], raises := [], calls := ["startswith"] }
+def fp_cifUmultiline : Fp := { params := [("p0", "<required>")], strs := ["\n;", "\n;\n"], ints := [], cmps := [], bools := [], raises := [], calls := [] }
+def fp_cifUparse_category_name : Fp := { params := [("p0", "<required>")], strs := ["_", "."], ints := [0, 1], cmps := ["NotEq"], bools := [], raises := [], calls := ["find"] }
+def fp_cifUparse_data_block_name : Fp := { params := [("p0", "<required>")], strs := ["data_"], ints := [5], cmps := [], bools := [], raises := [], calls := ["startswith"] }
+def fp_cifUsplit_one_line : Fp := { params := [("p0", "<required>")], strs := [";", "'", "\"", " ", "'", "\""], ints := [0, 1, 0, 1, 1, 1, 1], cmps := ["Eq", "In", "In", "Gt"], bools := ["Or", "And"], raises := [], calls := ["lstrip", "partition", "startswith", "endswith", "len", "partition", "split"] }
+def fp_cifUto_single : Fp := { params := [("p0", "<required>")], strs := [";", "\n"], ints := [0], cmps := ["Eq"], bools := ["Not"], raises := [], calls := ["append", "append", "join", "append", "append"] }
 def fp_component_MaskValue : Fp := { params := [], strs := ["PRESENT", "INAPPLICABLE", "MISSING"], ints := [0, 1, 2], cmps := [], bools := [], raises := [], calls := [] }
 def fp_componentUHierarchicalContainerU_containsU : Fp := { params := [("key", "<required>")], strs := [], ints := [], cmps := ["In"], bools := [], raises := [], calls := [] }
 def fp_componentUHierarchicalContainerU_delitemU : Fp := { params := [("key", "<required>")], strs := [], ints := [], cmps := [], bools := [], raises := [], calls := [] }
@@ -129,8 +129,8 @@ def fp_componentUHierarchicalContainerU_initU : Fp := { params := [("elements", 
 def fp_componentUHierarchicalContainerU_iterU : Fp := { params := [], strs := [], ints := [], cmps := [], bools := [], raises := [], calls := ["iter"] }
 def fp_componentUHierarchicalContainerU_lenU : Fp := { params := [], strs := [], ints := [], cmps := [], bools := [], raises := [], calls := ["len"] }
 def fp_componentUHierarchicalContainerU_setitemU : Fp := { params := [("key", "<required>"), ("element", "<required>")], strs := [], ints := [], cmps := [], bools := [], raises := ["TypeError", "DeserializationError"], calls := ["isinstance", "subcomponent_class", "isinstance", "deserialize", "subcomponent_class"] }
-def fp_componentUHierarchicalContainerUdeserialize_elements : Fp := { params := [("content", "<required>"), ("take_key_from", "<required>")], strs := [], ints := [], cmps := [], bools := [], raises := [], calls := [] }
-def fp_componentUHierarchicalContainerUserialize_elements : Fp := { params := [("store_key_in", "None")], strs := [], ints := [], cmps := ["IsNot"], bools := [], raises := ["SerializationError"], calls := ["items", "isinstance", "subcomponent_class", "serialize", "append"] }
+def fp_componentUHierarchicalContainerUdeserialize_elements : Fp := { params := [("p0", "<required>"), ("p1", "<required>")], strs := [], ints := [], cmps := [], bools := [], raises := [], calls := [] }
+def fp_componentUHierarchicalContainerUserialize_elements : Fp := { params := [("p0", "None")], strs := [], ints := [], cmps := ["IsNot"], bools := [], raises := ["SerializationError"], calls := ["items", "isinstance", "subcomponent_class", "serialize", "append"] }
 def binaryPrefixes : List String := ["_", "_", "_", "_", "_"]
 def binaryStrip : List (List String) := [["removeprefix", "_"], ["removeprefix", "_"]]
 def blockHeaderParts : List String := ["data_", "\n#\n"]
